@@ -33,7 +33,7 @@ For each change k = 1, 2, 3 write into /tmp/seeds/$ID$TAG/<k>/ :
   patch.diff    — \`git diff\` against HEAD, must apply with \`git apply\` at the repository root of a clean checkout;
   demo_test.go  — a Go test file (package of the changed code, e.g. \`package fasthttp\`; test names starting with TestSeedDemo) that FAILS with the change applied and PASSES on the clean tree, as deterministically as you can (use fasthttputil.InmemoryListener / pipes, not real sockets; it may loop to hit an interleaving). It will be copied next to the package sources as zz_seed_demo_test.go and run with \`go test -vet=off -count=1 -run TestSeedDemo .\`;
   notes.md      — 5-15 lines: what the change is, which clause of the property it breaks, exactly what is needed for it to manifest, and the commands you ran with their outcome.
-Never use `git stash` (stashes are shared between worktrees of this repository; other people work in sibling worktrees). After finishing each change reset the worktree (\`git checkout -- . && git clean -fdq\`) so the next one starts from the clean tree; never commit. Confirm for each: demo passes on the clean tree, demo fails with the patch, the existing suite passes with the patch. If a candidate fails an existing test, pick another rather than editing tests.
+Never use `git stash` (stashes are shared between worktrees of this repository; other people work in sibling worktrees). After finishing each change reset the worktree with exactly \`git -C $WT checkout -- . && git -C $WT clean -fdq\` (ALWAYS pass -C $WT or use absolute paths: your shell's working directory is reset to another directory between commands, and a bare \`git checkout -- .\` there destroys someone else's work) so the next one starts from the clean tree; never commit. Confirm for each: demo passes on the clean tree, demo fails with the patch, the existing suite passes with the patch. If a candidate fails an existing test, pick another rather than editing tests.
 
 Finish with a SHORT report (under 200 words): for each k one line saying what it changes and whether (demo-clean-pass, demo-patched-fail, suite-pass) were all confirmed.
 PROMPT
